@@ -188,6 +188,7 @@ class Agg:
         self.crashes = 0
         self.cases_run = 0
         self.crash_violations = 0   # confirmed crash / hang / OOM violations
+        self.over_budget = []       # cases of a non-C05 workload that were too expensive to finish (skipped, reported)
         self.cases_skipped_after_crashes = 0
 
     def add_stats(self, st):
@@ -256,8 +257,14 @@ def run_range(agg, binp, prop, seed, start, count, tier, tag, extra=None, timeou
         else:
             st2 = open(r2["stderr"], errors="replace").read()[-6000:]
             kind2, where2 = classify_crash(r2["rc"], pl2, st2)
+            busy_hang = kind2 == "hang" and (pl2.get("hang") or {}).get("kind", "busy") == "busy"
             if r2["timed_out"]:
                 agg.inconclusive.append(f"confirmation run of case {open_case} hit the wall-clock limit")
+            elif prop != "C05" and (busy_hang or kind2 == "oom"):
+                # a CPU-bound call beyond the time budget (or an allocation beyond the memory limit) is C05's subject, judged
+                # there inside its domain filter; in the workload of another property it only means that this case was too
+                # expensive to finish - not a verdict about that property (a call that BLOCKS without using CPU still is)
+                agg.over_budget.append(f"case {open_case} exceeded the {kind2} budget at {where2} ({tag})")
             else:
                 agg.viol.append({
                     "sig": f"{prop}/{kind2}@{where2}",
@@ -385,6 +392,7 @@ def conclude(prop, tier, seed, agg, t0, rule, assumptions, required=None, level=
         "worker_crashes_attributed": agg.crashes,
         "cases_skipped_after_confirmed_crashes": agg.cases_skipped_after_crashes,
         "inconclusive_reasons": agg.inconclusive[:20],
+        "cases_skipped_over_budget": agg.over_budget[:20],
         "harness_errors": agg.herr[:10],
     }
     if exhaustive is not None:
@@ -393,6 +401,8 @@ def conclude(prop, tier, seed, agg, t0, rule, assumptions, required=None, level=
         cov.update(extra_cov)
 
     inconclusive = list(agg.inconclusive)
+    if len(agg.over_budget) > 5:
+        inconclusive.append(f"{len(agg.over_budget)} cases exceeded the time/memory budget and were skipped: {agg.over_budget[0]}")
     if agg.herr:
         inconclusive.append(f"{len(agg.herr)} harness error(s): {agg.herr[0]}")
     if cov["evaluations"] == 0:
